@@ -230,6 +230,22 @@ pub fn apply(op: &Op, sc: &Scenario, req: &[u8], prev_honest: &[u8]) -> Vec<u8> 
                     p.dele.set("MAXT", le64(sc.stamp.midp.saturating_sub(10)));
                     p.sign_dele(v, &id.lt_seed);
                 }
+                // properly signed SREP whose ROOT is not a full Merkle node: nothing can bind to it
+                "root-empty" | "root-prefix-4" | "root-half" | "root-extended" => {
+                    let full = p.srep.get("ROOT").map(|r| r.to_vec()).unwrap_or_default();
+                    let r = match *what {
+                        "root-empty" => vec![],
+                        "root-prefix-4" => full[..4].to_vec(),
+                        "root-half" => full[..w / 2].to_vec(),
+                        _ => {
+                            let mut x = full.clone();
+                            x.extend_from_slice(&[0u8; 4]);
+                            x
+                        }
+                    };
+                    p.srep.set("ROOT", r);
+                    p.sign_srep(v, &id.online_seed);
+                }
                 // properly signed SREP whose ROOT does not cover the request
                 "root-of-other-batch" => {
                     let other: Vec<Vec<u8>> = (0..sc.n).map(|k| std_request(v, &nonce(0x8800 + k as u64, v.nonce_len()))).collect();
@@ -338,7 +354,7 @@ pub fn alphabet(v: Version, honest_len: usize, tier: Tier) -> Vec<Op> {
         ops.push(Op::SetField("VER", "classic"));
         ops.push(Op::SetField("VER", "remove"));
     }
-    for r in ["all-by-s2", "srep-by-s2-online", "dele-by-s2", "window-before", "window-after", "window-empty", "root-of-other-batch"] {
+    for r in ["all-by-s2", "srep-by-s2-online", "dele-by-s2", "window-before", "window-after", "window-empty", "root-of-other-batch", "root-empty", "root-prefix-4", "root-half", "root-extended"] {
         ops.push(Op::Resign(r));
     }
     for c in ["dele-ctx", "tree-profile", "whole-reply", "framing"] {
@@ -562,7 +578,7 @@ pub fn run_c01(ctx: &Ctx) -> Result<(), String> {
     ctx.cov("outcome_classes", json!(*classes.lock().unwrap()));
     ctx.cov("exhaustive", json!(true));
     ctx.cov("bound", json!({"deviations": 1, "batch_shapes": shapes(ctx.tier), "multi_request": [2, 3]}));
-    ctx.cov("rule", json!("each case = one execution of the real roughenough-client process (-z -v -f '%s %f' -k <S1 key, hex or base64> -p 0|13 [-j]) against a harness UDP responder that builds the honest reply for the request actually received (reference responder, keys S1) and applies ONE tamper operator: T1 every single bit of the whole datagram; T2 field substitutions on SIG, CERT.SIG, PATH, INDX, SREP.{MIDP,RADI,ROOT,VER}, DELE.{PUBK,MINT,MAXT} without re-signing; T3 chain re-signed by another long-term key; T4 properly signed delegation window excluding MIDP; T5 cross-protocol context/tree/framing; T6 replies for other requests (same batch, other batch, previous run; for -n 2/3 all assignment functions); T7 truncations (quick: every 4 bytes, thorough: every byte) and extensions; raw junk. 0 deviations = honest baseline. Oracle: violation iff the client exits 0 and prints a time while rtref::authentic (client view, pinned key) rejects. Non-trivial = any case with a tamper operator."));
+    ctx.cov("rule", json!("each case = one execution of the real roughenough-client process (-z -v -f '%s %f' -k <S1 key, hex or base64> -p 0|13 [-j]) against a harness UDP responder that builds the honest reply for the request actually received (reference responder, keys S1) and applies ONE tamper operator: T1 every single bit of the whole datagram; T2 field substitutions on SIG, CERT.SIG, PATH, INDX, SREP.{MIDP,RADI,ROOT,VER}, DELE.{PUBK,MINT,MAXT} without re-signing; T3 chain re-signed by another long-term key; T4 properly signed (by S1) delegation window excluding MIDP, root of another batch, ROOT that is not a full node (empty, 4-byte prefix, half, extended); T5 cross-protocol context/tree/framing; T6 replies for other requests (same batch, other batch, previous run; for -n 2/3 all assignment functions); T7 truncations (quick: every 4 bytes, thorough: every byte) and extensions; raw junk. 0 deviations = honest baseline. Oracle: violation iff the client exits 0 and prints a time while rtref::authentic (client view, pinned key) rejects. Non-trivial = any case with a tamper operator."));
     ctx.sample(json!({"version":"classic","n":3,"i":2,"op":"set:CERTSIG:by-s2","key":"hex"}));
     ctx.sample(json!({"version":"ietf13","n":1,"i":0,"op":"flipbit:1007","key":"base64"}));
     ctx.sample(json!({"version":"classic","nreq":3,"assignment":[1,0,2]}));
